@@ -266,6 +266,7 @@ class SlowListener:
         self.loop = loop
         self.active = False
         self.only = None              # None: every state; else a set of state names to hold
+        self.listening = False        # also hold the reports of listening connections
         self.exclude: list = []
         self.held: list = []          # (connection, state name, future) in report order
         self._cb = self._on_event     # strong reference: the bus holds listeners weakly
@@ -273,7 +274,9 @@ class SlowListener:
 
     async def _on_event(self, event):
         conn = event.connection
-        if not self.active or not isinstance(conn, self._DC) or any(conn is x for x in self.exclude):
+        if not self.active or any(conn is x for x in self.exclude):
+            return
+        if not isinstance(conn, self._DC) and not self.listening:
             return
         if self.only is not None and event.state.name not in self.only:
             return
@@ -409,8 +412,10 @@ class ModelConn:
 
 class World:
     def __init__(self, loop, chk_rng, *, connect_mode='fallback', server_auto=True, hold=True, burst=0.0,
-                 slow=False):
+                 slow=False, prefer_obf=False, netdisc=False):
         self.loop = loop
+        self.prefer_obf = prefer_obf   # settings.network.peer.obfuscate: which of two advertised ports is tried
+        self.netdisc = netdisc         # the first Disconnect of a peer connection is issued as Network.disconnect()
         self.slow = slow            # the slow listener holds every report of the model connections
         self.burst = burst          # probability that the next stimulus follows without letting the loop settle
         self.rng = chk_rng
@@ -432,7 +437,8 @@ class World:
         self.net = simnet.SimNet(self.loop).install()
         self.net.policy = lambda host, port: ('gate', self.gates[port]) if port in self.gates else 'ok'
         self.settings = simserver.make_settings('me', port=LISTEN, obfuscated_port=LISTEN_OBF,
-                                                network=dict(peer=dict(connect_mode=self.connect_mode)))
+                                                network=dict(peer=dict(connect_mode=self.connect_mode,
+                                                                       obfuscate=self.prefer_obf)))
         self.bus = EventBus()
         self.network = Network(self.settings, self.bus)
         self.rec = Recorder(self.loop, self.net, self.network, self.bus)
@@ -642,12 +648,25 @@ class World:
             mc.via = via
         port = mc.port + (1 if mc.obf else 0)
         self.gates[port] = self.loop.create_future()
-        self.by_port[port] = mc
-        peer = simserver.ScriptedPeer(self.net, mc.user, port)
-        peer.on_accept = lambda ep, _mc=mc: setattr(_mc, 'ep', ep)
-        await peer.listen()
         sconn = self.network.server_connection
-        if mc.via == 'ctp' and sconn.state.name == 'CONNECTED' and self.server.sessions:
+        server_up = sconn.state.name == 'CONNECTED' and bool(self.server.sessions)
+        if mc.via == 'resolve' and not server_up:
+            mc.via = 'api'
+        # the peer listens on the port that will be tried (gated: the behaviour decides its fate); when the address is
+        # resolved through the server and both ports are advertised, the other port is reachable as well
+        ports = [port]
+        if mc.via == 'resolve':
+            both = (self.prefer_obf == mc.obf)
+            self.server.addresses[mc.user] = (mc.ip, mc.port if (both or not mc.obf) else 0,
+                                              mc.port + 1 if (both or mc.obf) else 0)
+            if both:
+                ports = [mc.port, mc.port + 1]
+        for p in ports:
+            self.by_port[p] = mc
+            peer = simserver.ScriptedPeer(self.net, mc.user, p)
+            peer.on_accept = lambda ep, _mc=mc: setattr(_mc, 'ep', ep)
+            await peer.listen()
+        if mc.via == 'ctp' and server_up:
             before = set(asyncio.all_tasks(self.loop))
             self.server.sessions[-1].send(M.ConnectToPeer.Response(
                 mc.user, mc.typ, mc.ip, 0 if mc.obf else mc.port, 4000 + mc.c, False,
@@ -656,10 +675,14 @@ class World:
             self.adopt_new(mc)
             mc.task = attempt_task(self.loop, before, mc.conn)
         else:
-            mc.via = 'api'
+            if mc.via != 'resolve':
+                mc.via = 'api'
+            resolve = mc.via == 'resolve'
 
             async def req():
                 try:
+                    if resolve:         # the address comes from the server (GetPeerAddress), the port from select_port
+                        return await self.network.create_peer_connection(mc.user, mc.typ)
                     return await self.network.create_peer_connection(mc.user, mc.typ, ip=mc.ip, port=port,
                                                                      obfuscate=mc.obf)
                 except asyncio.CancelledError:
@@ -759,7 +782,10 @@ class World:
     a_WriteTimeout = a_DrainTimeout
 
     async def a_InAccept(self, mc):
-        ep = await self.net.dial(LISTEN_OBF if mc.obf else LISTEN)
+        try:
+            ep = await self.net.dial(LISTEN_OBF if mc.obf else LISTEN)
+        except ConnectionError:
+            return False                    # the listening port is closed (after a Network.disconnect())
         mc.ep, mc.link, mc.side = ep, ep.link, 1
         self._apply_arm(mc)
 
@@ -805,12 +831,12 @@ class World:
             return False
         self.spawn(self._send(mc, queued=mc.kind != 'server' and self.rng.random() < 0.3))
 
-    async def a_SendBlocked(self, mc):
+    async def a_SendBlocked(self, mc, how='direct'):
         w = self.writer(mc)
         if mc.conn is None or w is None:
             return False
         w.paused = True
-        self.spawn(self._send(mc))
+        self.spawn(self._send(mc, queued=(how == 'queued' and mc.kind != 'server')))
 
     async def a_SendResume(self, mc):
         w = self.writer(mc)
@@ -850,6 +876,9 @@ class World:
             return False
         if mc.kind == 'server':
             self.spawn(self.network.disconnect_server())
+        elif self.netdisc:
+            self.netdisc = False            # once: everything registered now is disconnected, not only this connection
+            self.spawn(self.network.disconnect())
         else:
             self.spawn(mc.conn.disconnect(CloseReason.REQUESTED))
 
@@ -908,8 +937,10 @@ def replay_behaviour(init_kinds, labels, seed_rng, *, hold, variant):
 
     async def main(loop):
         has_server_mc = any(k == 'server' for k, _ in init_kinds.values())
+        outs = [obf for k, obf in init_kinds.values() if k == 'out']
         w = World(loop, seed_rng, server_auto=not has_server_mc, hold=hold, burst=variant.get('burst', 0.0),
-                  slow=bool(variant.get('slow')))
+                  slow=bool(variant.get('slow')), prefer_obf=bool(outs and outs[0]),
+                  netdisc=bool(variant.get('netdisc')))
         try:
             await w.start()
             for c, (kind, obf) in init_kinds.items():
@@ -1202,6 +1233,127 @@ async def _scn_backpressure(w: World, how: str):
     rec.quiescent()
 
 
+async def _scn_two_ports(w: World, unreachable: str):
+    """create_peer_connection without an address: the server advertises both of the peer's ports, the preferred one
+    (`unreachable` = 'obfuscated' with network.peer.obfuscate, 'regular' without) refuses, the other one is reachable;
+    the peer does not answer the ConnectToPeer either."""
+    loop, rec = w.loop, w.rec
+    base = 7900
+    w.server.addresses['twoports'] = ('10.0.9.1', base, base + 1)
+    bad = base + 1 if unreachable == 'obfuscated' else base
+    w.net.policy = lambda host, p, _prev=w.net.policy: 'refuse' if p == bad else _prev(host, p)
+    for p in (base, base + 1):
+        await simserver.ScriptedPeer(w.net, 'twoports', p).listen()
+    rec.stim(f'create_peer_connection, both ports advertised, the {unreachable} port refuses')
+    task = asyncio.create_task(w.network.create_peer_connection('twoports', 'P'))
+    await vloop.settle(loop)
+    for c in w.known_peer_connections():
+        if c.port in (base, base + 1):
+            rec.att_fn[rec.idx(c)] = lambda: 'gone' if task.done() else 'running'
+    rec.quiescent()
+    await asyncio.sleep(70)                 # the indirect attempt times out
+    await vloop.settle(loop)
+    rec.quiescent()
+    if not task.done():
+        task.cancel()
+    elif not task.cancelled():
+        task.exception()
+
+
+async def _scn_disconnects_with_queued(w: World, second: str):
+    """A queued message is still unsent (back-pressure) when a requested disconnect starts; a second disconnect with
+    another origin arrives right after it: `second` = 'request' (another caller), 'eof' / 'reset' (the reader)."""
+    from aioslsk.network.connection import CloseReason
+    M, loop, rec = w.M, w.loop, w.rec
+    peer = simserver.ScriptedPeer(w.net, 'qpeer', 8000)
+    eps = []
+    peer.on_accept = eps.append
+    await peer.listen()
+    conn = await w.network.create_peer_connection('qpeer', 'P', ip='10.0.10.1', port=8000)
+    await vloop.settle(loop)
+    w.observe_sends(conn)
+    wr = eps[0].link.writers[0]
+    install_backpressure(wr)
+    rec.quiescent()
+    rec.stim('queue_message under back-pressure')
+    wr.paused = True
+    conn.queue_message(M.PeerUserInfoRequest.Request())
+    await vloop.settle(loop)
+    rec.quiescent()
+    rec.stim(f'disconnect(REQUESTED), then a second disconnect: {second}')
+    t1 = asyncio.create_task(conn.disconnect(CloseReason.REQUESTED))
+    await vloop.settle(loop)
+    rec.quiescent()
+    if second == 'request':
+        t2 = asyncio.create_task(conn.disconnect(CloseReason.REQUESTED))
+    elif second == 'eof':
+        eps[0].close()
+        t2 = None
+    else:
+        eps[0].link.cut('reset')
+        t2 = None
+    await vloop.settle(loop)
+    rec.quiescent()
+    await asyncio.sleep(3)
+    wake_writer(wr)
+    await vloop.settle(loop)
+    rec.quiescent()
+    await asyncio.gather(*[t for t in (t1, t2) if t is not None], return_exceptions=True)
+
+
+async def _scn_netdisc_concurrent_registration(w: World, kind: str):
+    """Network.disconnect() spans time (the wait_closed of an open connection is slow, the listening connections'
+    CLOSING reports are held by a listener); meanwhile a new connection is registered: kind = 'out'
+    (create_peer_connection completes) or 'in' (a peer is accepted and initialises).  Then Network.disconnect() ends."""
+    M, loop, rec = w.M, w.loop, w.rec
+    first = simserver.ScriptedPeer(w.net, 'first', 8100)
+    await first.listen()
+    await w.network.create_peer_connection('first', 'P', ip='10.0.11.1', port=8100)
+    await vloop.settle(loop)
+    for link in w.net.links:
+        link.writers[0].hold_wait_closed = True
+    w.listener.exclude.append(w.network.server_connection)
+    w.listener.exclude.extend(w.network.peer_connections)
+    w.listener.listening = True
+    w.listener.only = {'CLOSING'}
+    w.listener.active = True
+    rec.quiescent()
+    rec.stim('network.disconnect (slow)')
+    t = asyncio.create_task(w.network.disconnect())
+    await vloop.settle(loop)
+    w.listener.active = False               # (reports made from now on are not held)
+    rec.quiescent()
+    rec.stim(f'a new connection is registered meanwhile: {kind}')
+    if kind == 'out':
+        await simserver.ScriptedPeer(w.net, 'late', 8110).listen()
+        t2 = asyncio.create_task(w.network.create_peer_connection('late', 'P', ip='10.0.11.2', port=8110))
+        await vloop.settle(loop)
+        for c in w.known_peer_connections():
+            if c.port == 8110:
+                rec.att_fn[rec.idx(c)] = lambda: 'gone' if t2.done() else 'running'
+    else:
+        t2 = None
+        try:
+            ep = await w.net.dial(LISTEN)
+            ep.send_message(M.PeerInit.Request('latecomer', 'P', 0))
+        except ConnectionError:
+            rec.stim('the listening port is closed already')
+    await vloop.settle(loop)
+    rec.quiescent()
+    rec.stim('network.disconnect finishes')
+    w.listener.release_all()
+    for link in w.net.links:
+        link.writers[0].release_wait_closed()
+    await vloop.settle(loop)
+    rec.quiescent()
+    await asyncio.sleep(1)
+    await vloop.settle(loop)
+    rec.quiescent()
+    for x in (t, t2):
+        if x is not None and x.done() and not x.cancelled():
+            x.exception()
+
+
 async def _scn_concurrent_disconnects(w: World, kind: str):
     """Several callers disconnect the same connection while wait_closed is held and the remote end closes too."""
     from aioslsk.network.connection import CloseReason
@@ -1369,6 +1521,15 @@ def scenarios(seed, tmpdir) -> dict:
     for how in ('reset', 'eof', 'local'):
         scn[f'backpressure:{how}'] = lambda h=how: run_network_scenario(
             rng('bp'), 'bp', lambda wd: _scn_backpressure(wd, h), hold=False)
+    for bad in ('obfuscated', 'regular'):
+        scn[f'two-ports:{bad}-unreachable'] = lambda b=bad: run_network_scenario(
+            rng('twoports'), 'twoports', lambda wd: _scn_two_ports(wd, b), hold=False, prefer_obf=(b == 'obfuscated'))
+    for second in ('request', 'eof', 'reset'):
+        scn[f'disconnects-with-queued-message:{second}'] = lambda x=second: run_network_scenario(
+            rng('dq'), 'dq', lambda wd: _scn_disconnects_with_queued(wd, x), hold=False)
+    for kind in ('out', 'in'):
+        scn[f'network.disconnect:concurrent-registration:{kind}'] = lambda k=kind: run_network_scenario(
+            rng('ndcr'), 'ndcr', lambda wd: _scn_netdisc_concurrent_registration(wd, k), hold=False)
     for kind in ('in', 'out'):
         scn[f'concurrent-disconnects:{kind}'] = lambda k=kind: run_network_scenario(
             rng('conc'), 'conc', lambda wd: _scn_concurrent_disconnects(wd, k), hold=False)
@@ -1566,7 +1727,9 @@ def _settled(r) -> bool:
 
 
 def _control(r) -> tuple:
-    return tuple(str(r[k]) for k in ('kind', 'hnd', 'cs', 'inReg', 'att', 'cnc', 'apc', 'rd', 'wr', 'dpc', 'dby', 'sblk'))
+    key = tuple(str(r[k]) for k in ('kind', 'hnd', 'cs', 'inReg', 'att', 'cnc', 'apc', 'rd', 'wr', 'dpc', 'dby', 'sblk'))
+    # how the address was obtained matters while the attempt is connecting (and ending a failed connect)
+    return key + ((str(r['adr']),) if str(r['apc']) in ('begin', 'repCONNECTING', 'opening', 'indisc') else ('-',))
 
 
 def _follows(real, model, settled) -> bool:
@@ -1644,7 +1807,7 @@ def run(chk: Check, args):
         r2 = tlc.model_check(SPEC, 'MC_two.cfg', timeout=3000)
         chk.add_model('ConnLifecycle 2 connections, all kinds, reports return at once (exhaustive)', r2)
         r3 = tlc.model_check(SPEC, 'MC_two_slow.cfg', timeout=3000)
-        chk.add_model('ConnLifecycle 2 connections, all kinds, suspending listeners (exhaustive)', r3)
+        chk.add_model('ConnLifecycle 2 peer connections (out/in), suspending listeners (exhaustive)', r3)
 
     # -- replay ------------------------------------------------------------------------
     behs = collect_behaviours(chk, thorough)
@@ -1666,10 +1829,21 @@ def run(chk: Check, args):
             runs = [(True, dict(slow=True, typ='P' if n % 3 else 'D'))]
         elif thorough or n % 4 == 0:
             runs.append((False, dict(via='ctp' if (n // 2) % 2 == 0 else 'api', typ='P')))
-        if source != 'slow' and (thorough or n % 6 == 1):
+        if source != 'slow' and (n % 2 == 1 if thorough else n % 6 == 1):
             # sub-slot schedules: some stimuli are applied without letting the loop run in between
             runs.append((n % 2 == 0, dict(via='api' if n % 4 < 2 else 'ctp', typ='P', burst=0.4)))
+        peer_disc = any(lab.startswith('Disconnect(') for lab in labels) and any(k != 'server' for k, _ in kinds.values())
+        if source != 'slow' and peer_disc and (n % 2 == 0 if thorough else n % 3 == 2):
+            # the disconnect comes from Network.disconnect(): whatever is registered at that moment is closed
+            runs.append((True, dict(typ='P', netdisc=True)))
+        if any('"resolve"' in lab for lab in labels):
+            # the address is resolved through the server and both ports are advertised: which one is tried depends on
+            # the obfuscation preference - run with both
+            runs = runs + [(h, dict(v, flip_obf=True)) for h, v in runs]
+        base_kinds = kinds
         for hold, variant in runs:
+            kinds = ({c: (k, k != 'server' and not o) for c, (k, o) in base_kinds.items()}
+                     if variant.get('flip_obf') else base_kinds)
             rseed = f'{chk.seed}:{n}:{int(hold)}'
             try:
                 out = replay_behaviour(kinds, labels, random.Random(rseed), hold=hold, variant=variant)
@@ -1740,7 +1914,7 @@ def run(chk: Check, args):
     # -- B: TLC judges the recorded executions ------------------------------------------------
     # strict reading (fidelity only): a fixed-stride sample and the scenarios; its search multiplies the silent steps
     # of independent connections, so traces with many connections are left to the thorough tier
-    step = max(1, len(traces) // (3000 if thorough else 240))
+    step = max(1, len(traces) // (1500 if thorough else 160))
     sample = sorted(t for t in set(range(1, len(traces) + 1, step)) |
                     {t for t in range(1, len(traces) + 1) if metas[t - 1].get('source') == 'scenario'}
                     if thorough or traces[t - 1][0]['n'] <= 3)
